@@ -195,10 +195,13 @@ def run_random(cfg, seed, steps, weights=None, maxcmd=12, extra=None):
             ww.update(pw)
             for item in script:
                 if item[0] == 'quiet':
-                    quiet_phase(cl, rng, trace, state, rounds=item[1], ncmds=item[2] if len(item) > 2 else 3)
+                    quiet_phase(cl, rng, trace, state, rounds=item[1], ncmds=item[2] if len(item) > 2 else 3, minus=item[3] if len(item) > 3 else None)
                     continue
                 if item[0] == 'boot':
                     boot_phase(cl, rng, trace, state)
+                    continue
+                if item[0] == 'votenew':
+                    votenew_phase(cl, rng, trace, state)
                     continue
                 if item[0] == 'splitvote':
                     splitvote_phase(cl, rng, trace, state)
@@ -242,7 +245,7 @@ def run_random(cfg, seed, steps, weights=None, maxcmd=12, extra=None):
     return trace
 
 
-def quiet_phase(cl, rng, trace, state, rounds=30, ncmds=3):
+def quiet_phase(cl, rng, trace, state, rounds=30, ncmds=3, minus=None):
     rounds = max(rounds, 24)
     """faults stop: every link is healed, every running node ticks timely, every message is delivered; when no
     leader is known one node's election timer fires first (the counterpart of randomised timeouts).  Ends with an
@@ -254,6 +257,28 @@ def quiet_phase(cl, rng, trace, state, rounds=30, ncmds=3):
             trace.append(cl.step(act))
     cl.script_held = set()
     ids = sorted(n for n in N if N[n].alive)
+    if minus:
+        # the property asks for a connected MAJORITY only: a minority of the voters (the current leader first, when
+        # minus == 'leader') stays cut off for the whole quiet period and is frozen; the others must converge without it
+        vs = [n for n in ids if N[n].voter]
+        nconf = len(cl.cfg.get('voters', vs))
+        kmax = len(vs) - (nconf // 2 + 1)
+        cut = []
+        if kmax > 0:
+            ls = sorted(((N[n].obj.raftCurrentTerm, n) for n in vs if N[n].obj._isLeader()), reverse=True)
+            if minus == 'leader' and ls:
+                cut.append(ls[0][1])
+            k = rng.randint(1, kmax)
+            rest = [n for n in vs if n not in cut]
+            rng.shuffle(rest)
+            cut = (cut + rest)[:k]
+        for x in cut:
+            for m in sorted(N):
+                if m != x:
+                    do(('Break', x, m))
+                    do(('Notice', x, m))
+                    do(('Notice', m, x))
+        ids = [n for n in ids if n not in cut]
     for i in ids:
         for j in ids:
             if i != j:
@@ -300,7 +325,7 @@ def quiet_phase(cl, rng, trace, state, rounds=30, ncmds=3):
         g = (behind(), tuple(sorted((str(k), v) for n in voters if N[n].obj._isLeader() for k, v in getattr(N[n].obj, '_SyncObj__raftNextIndex').items())))
         stalled = stalled + 1 if g == last_gap else 0
         last_gap = g
-    trace.append(cl.step(('Assert', 'converged')))
+    trace.append(cl.step(('Assert', 'converged', list(ids)) if minus else ('Assert', 'converged')))
 
 
 def boot_phase(cl, rng, trace, state):
@@ -390,6 +415,66 @@ def splitvote_phase(cl, rng, trace, state):
         for x in (A, B):
             while do(('Deliver', c, x)):
                 pass
+
+
+def votenew_phase(cl, rng, trace, state):
+    """directed schedule (dynamic membership + journal): a spare node is added at run time and started; the leader is cut
+    off; the NEW member stands and one of the old voters grants it its vote; that voter is killed and restarted right away
+    (its constructor still lists the original members only); then the other old voter stands in the same term."""
+    N = cl.nodes
+
+    def do(act):
+        if cl.applicable(act):
+            trace.append(cl.step(act))
+            return True
+        return False
+
+    def deliver_all(skip=()):
+        for _ in range(60):
+            chans = sorted((i, j) for (i, j), q in cl.net.chan.items() if q and j in N and N[j].alive and (i, j) not in skip)
+            if not chans:
+                return
+            for (i, j) in chans:
+                do(('Deliver', i, j))
+    voters = sorted(n for n in N if N[n].alive and N[n].voter)
+    spares = sorted(n for n in N if not N[n].alive and N[n].voter and N[n].generation == 0)
+    ls = [(N[n].obj.raftCurrentTerm, n) for n in voters if N[n].obj._isLeader()]
+    if not ls or not spares or len(voters) < 3:
+        return
+    L, D = max(ls)[1], spares[0]
+    state['ncmd'] += 1
+    do(('Submit', L, 'm%d' % state['ncmd'], {'kind': 'add', 'x': D}))
+    for r in range(4):
+        for n in voters:
+            do(('Tick', n, 'h'))
+        deliver_all()
+    if not all(D in [x.id for x in N[n].obj.otherNodes] for n in voters):
+        return
+    do(('Start', D, sorted(voters + [D])))
+    for n in voters:
+        do(('Connect', D, n)); do(('Connect', n, D))
+    for r in range(4):
+        for n in voters + [D]:
+            do(('Tick', n, 'h'))
+        deliver_all()
+    rest = [v for v in voters if v != L]
+    for m in rest + [D]:
+        do(('Break', L, m)); do(('Notice', L, m)); do(('Notice', m, L))
+    X = rng.choice(rest)
+    Y = [v for v in rest if v != X][0]
+    do(('Tick', D, 'j'))                       # the new member stands
+    while do(('Deliver', D, X)):               # X hears it first and grants
+        pass
+    if rng.random() < 0.5:
+        do(('Crash', X))
+    else:
+        do(('KillAt', X, rng.choice([1, 2, 3]), ['Tick', X, 'z']))
+    do(('Restart', X))
+    do(('Tick', Y, 'j'))                       # the other old voter stands, possibly in the same term
+    for n in (Y, D):
+        do(('Connect', X, n)); do(('Connect', n, X))
+    deliver_all(skip={(D, Y), (Y, D)})
+    deliver_all()
 
 
 def reelect_phase(cl, rng, trace, state, variant=None):
